@@ -9,7 +9,7 @@ import collections
 import importlib
 import re
 
-PROP_GROUPS = {'C16': ['concat'], 'C12': ['sortkey'], 'C04': ['driver'], 'C15': ['fields', 'delete_schema', 'select_schema'], 'C01': ['flow'], 'C07': ['flow', 'ejson', 'ejson_hook'], 'C11': ['join'], 'C02': ['join'], 'C10': ['matcher'], 'C14': ['handlers', 'vloop'], 'C17': ['rows'], 'C13': ['load']}
+PROP_GROUPS = {'C16': ['concat'], 'C12': ['sortkey'], 'C04': ['driver'], 'C15': ['fields', 'delete_schema', 'select_schema', 'get_type'], 'C01': ['flow'], 'C07': ['flow', 'ejson', 'ejson_hook'], 'C11': ['join'], 'C02': ['join', 'get_type'], 'C10': ['matcher'], 'C14': ['handlers', 'vloop'], 'C17': ['rows'], 'C13': ['load']}
 
 
 # ---------------------------------------------------------------- encoding
@@ -464,6 +464,19 @@ def run_select_schema(ctx, b, n):
                       ['configuration', {'t': 'dict', 'v': [[to_pv('r'), {'t': 'set', 'v': []}]]}], ['resource', to_pv({'name': 'r'})],
                       ['regex', to_pv(regex)], ['fields', to_pv(pats)]]}
         b.add_op(op, 'select_schema_loop', real, post=lambda v: v, case=[names, pats, regex])
+    b.flush()
+
+
+def run_get_type(ctx, b, n):
+    """add_computed_field.get_type: the real function against the translated one (all eight operations)"""
+    AC = importlib.import_module('dataflows.processors.add_computed_field')
+    rng = ctx.rng('pycorr-get-type')
+    for _ in range(n):
+        names = rng.sample(['a', 'b', 'c', 'd', 'e'], rng.randint(0, 5))
+        fields = [{'name': nm, 'type': rng.choice(['integer', 'number', 'string', 'any', 'date', 'integer'])} for nm in names]
+        srcs = rng.sample(['a', 'b', 'c', 'd', 'e', 'zz'], rng.randint(0, 3))
+        op = rng.choice(sorted(AC.AGGREGATORS))
+        b.add('computed_get_type', [fields, srcs, op], real_call(AC.get_type, fields, srcs, op), case=[fields, srcs, op])
     b.flush()
 
 
@@ -1098,7 +1111,7 @@ def run_flow(ctx, b, n):
     b.flush()
 
 
-RUNNERS = {'select_schema': run_select_schema, 'delete_schema': run_delete_schema, 'concat': run_concat, 'ejson_hook': run_ejson_hook, 'sortkey': run_sortkey, 'ejson': run_ejson, 'driver': run_driver, 'fields': run_fields, 'flow': run_flow, 'load': run_load, 'vloop': run_vloop, 'join': run_join, 'matcher': run_matcher, 'handlers': run_handlers, 'rows': run_rows}
+RUNNERS = {'get_type': run_get_type, 'select_schema': run_select_schema, 'delete_schema': run_delete_schema, 'concat': run_concat, 'ejson_hook': run_ejson_hook, 'sortkey': run_sortkey, 'ejson': run_ejson, 'driver': run_driver, 'fields': run_fields, 'flow': run_flow, 'load': run_load, 'vloop': run_vloop, 'join': run_join, 'matcher': run_matcher, 'handlers': run_handlers, 'rows': run_rows}
 
 
 def run(ctx, groups=None, n=None):
